@@ -78,6 +78,7 @@ def _board(rng):
 # (a reply is the name, one comma, then the payload verbatim: 'QT,Tom', 'QT,,odd', 'QT,QT')
 NICKS = ["Bot", " Axi ", "Plotter 7", "x" * 16, "a b", "Tom", "Quill", "QT", "TQ", "TTT", "Q", "T", ",odd", ",,x", "T,Q", "QT,QT", "qt", " Tim\t", "Q Q",
          "East  Lab", " Plotter   No 2 ", "Rack\t4", "a \t b",
+         "  abcdefghijklmnop", "   North Studio #07", "\t\t Sixteen chars ok", " " * 9 + "Plotter-in-room4",      # long paddings around a name that fits: trimming comes first
          "Terry", "Cherry pie", "ERROL", "err", "Err", "Ferry:1", "berr: y", "OK", "!8"]      # texts that resemble the board's status words without being them (an error line carries 'Err:')          # interior whitespace is part of the name: only the ends are trimmed
 def _nick(rng):
     if rng.random() < 0.6: return rng.choice(NICKS)
